@@ -1655,6 +1655,65 @@ def helper_form_conjunction(A, offer_fn, is_target_write):
     return dict(passing=passing, loops=1, flags=1, bad_flags=[], gate_ok=gate_ok, site=site or hb.span["s"], fn=hb.name)
 
 
+def helper_find_form_conjunction(A, offer_fn, is_target_write):
+    """the guard of the target write is a helper `h(.., job) -> Option<job>` that is nothing but a search
+    `neighbours(job, Outgoing).find(pred)` (straight-line code, the search result is the return value), and the write happens only
+    when the search finds nothing.  Then: passing(d) = pred is false for a neighbour in state d; gate = the write is unreachable
+    when the helper answers Some."""
+    from protocol import forced_analysis
+    from models import OPTION
+    from domain import adt, TOP
+    body = A.facts.body(offer_fn)
+    g = call_graph(A)
+    cands = []
+    for n in sorted(g.get(offer_fn, ())):
+        hb = A.facts.bodies.get(n)
+        if hb is None or hb.kind not in ("Fn", "AssocFn") or n == offer_fn or hb.locals[0].get("adt") != OPTION:
+            continue
+        if list(hb.back_edges()):
+            continue
+        straight, find_dest0 = True, False
+        for blk in hb.blocks:
+            if blk.get("cleanup"):
+                continue
+            t = blk["term"]["t"]
+            if t["k"] in ("goto", "return", "drop"):
+                continue
+            if t["k"] != "call":
+                straight = False
+                break
+            if (M.callee_name(t) or "").endswith("Iterator::find") and t["dest"]["l"] == 0 and not t["dest"]["p"]:
+                find_dest0 = True
+        if not straight or not find_dest0:
+            continue
+        if any(s_["k"] == "assign" and s_["p"]["l"] == 0 for blk in hb.blocks if not blk.get("cleanup") for s_ in blk["stmts"]):
+            continue
+        cands.append(hb)
+    if len(cands) != 1:
+        return None
+    hb = cands[0]
+    site = None
+    reach_w = {}
+    for nm, av in (("none", adt(OPTION, {0: ()})), ("some", adt(OPTION, {1: (TOP,)}))):
+        I3, fr3, out3, col3 = forced_analysis(A, body, {hb.name: (lambda I_, st_, f_, bi_, t_, a_, sp_, _av=av: [(_av, st_)])})
+        ws = [x for k, x in I3.rec.facts.items() if k[0] == "write_state" and is_target_write(x)]
+        reach_w[nm] = bool(ws)
+        if ws:
+            site = site or A.site(ws[0])
+    if not reach_w["none"]:
+        return None
+    passing = set()
+    for d in A.JS:
+        I, fr, out, col = forced_analysis(A, hb, {}, cfgd=dict(label="FINDF", default_states=fin(A.L.jobstate, [d]), flags=("nonempty_nbrs",)))
+        nb = [v for k, v in I.rec.facts.items() if k[0] == "neighbors" and v["fid"] == fr.fid and v["dir"] == "Outgoing" and is_role(v["key"], "param")]
+        qs = [v for k, v in I.rec.facts.items() if k[0] == "quantifier" and v.get("find") and v["fn"] == hb.name]
+        if len(nb) != 1 or len(qs) != 1:
+            return None
+        if not qs[0]["may_true"]:
+            passing.add(d)
+    return dict(passing=passing, loops=1, flags=1, bad_flags=[], gate_ok=not reach_w["some"], site=site or hb.span["s"], fn=hb.name)
+
+
 def rule_offer_guard(A, R, rule, need_success=True):
     """the cleanup offer is guarded by the states of *all* direct downstreams: each passes only if it finished without failure"""
     C = A.classes()
@@ -1677,6 +1736,9 @@ def rule_offer_guard(A, R, rule, need_success=True):
     if res is None:
         # the scan may have been extracted into a helper that answers wait / offer / skip
         res = helper_form_conjunction(A, offer_fn, lambda w: bool(set(w["to"]) & CO))
+    if res is None:
+        # ... or into a search for the first downstream that stands in the way
+        res = helper_find_form_conjunction(A, offer_fn, lambda w: bool(set(w["to"]) & CO))
     R.info["offer_function"] = short(offer_fn)
     R.ob(rule, "%s | offer write found with a downstream loop in front of it" % short(offer_fn), res is not None and res["loops"] >= 1,
          detail="cannot find the loop over the direct downstreams that guards the offer")
